@@ -1,12 +1,10 @@
-// C11 kernel: the archive-entry-name -> relative-path mapping used by `warcraft-rs mpq extract`.
-// Child module of warcraft-rs/src/commands/mpq.rs (extraction_relative_path is private there).
-// Decided for EVERY entry name of the bounded length (all valid UTF-8 byte strings) and both modes:
-//   containment: a returned path is relative, non-empty and consists of normal components only
-//                (no "..", no ".", no root, no drive prefix / ':' , no backslash), so that
-//                output_dir.join(path) stays beneath output_dir;
-//   function:    the path is exactly the name's components (split on '\\' and '/', empty and "." dropped)
-//                joined by '/', or just the last one without --preserve-paths; names without a hostile
-//                component and with at least one component are accepted (no over-rejection).
+// C11 kernel: the containment decision `warcraft-rs mpq extract` makes for every archive entry name.
+// Child module of warcraft-rs/src/commands/mpq.rs (entry_name_is_contained is private there).
+// Decided for EVERY byte string of the bounded length:
+//   entry_name_is_contained(name) is true exactly when no component (pieces between '\\' and '/') is ".."
+//   or contains ':' and some component other than "." and "" exists.
+// With that, the path extraction_relative_path builds (the same pieces, empty and "." dropped, joined) has normal
+// components only, so output_dir.join(path) stays beneath output_dir.
 #![allow(unused_imports, dead_code)]
 #[path = "../env/io.rs"]
 mod vio;
@@ -14,133 +12,67 @@ use super::*;
 
 fn is_sep(b: u8) -> bool { b == b'/' || b == b'\\' }
 
-/// reference written from the helper's documentation: -> (accept, expected bytes, expected length)
-fn reference<const N: usize, const M: usize>(s: &[u8; N], preserve: bool) -> (bool, [u8; M], usize) {
-    let mut out = [0u8; M];
-    let mut len = 0usize;
-    let mut last_start = 0usize; // start of the last component inside `out`
-    let mut any = false;
-    let mut i = 0usize;
-    while i <= N {
-        // component = s[start..i) ends at a separator or at the end
-        let mut j = i;
-        while j < N && !is_sep(s[j]) { j += 1; }
-        let clen = j - i;
-        if clen == 0 || (clen == 1 && s[i] == b'.') {
-            // dropped
-        } else if clen == 2 && s[i] == b'.' && s[i + 1] == b'.' {
-            return (false, out, 0);
-        } else {
-            let mut k = i;
-            while k < j { if s[k] == b':' { return (false, out, 0); } k += 1; }
-            if any { out[len] = b'/'; len += 1; }
-            last_start = len;
-            let mut k = i;
-            while k < j { out[len] = s[k]; len += 1; k += 1; }
-            any = true;
-        }
-        i = j + 1;
+/// the specification, stated position-wise (not as a scan with state): -> (hostile, named)
+fn spec<const N: usize>(s: &[u8; N]) -> (bool, bool) {
+    let mut hostile = false;
+    let mut named = false;
+    let mut i = 0;
+    while i < N {
+        let left = i == 0 || is_sep(s[i - 1]);
+        if s[i] == b':' { hostile = true; }
+        // a component that is exactly ".."
+        if left && i + 1 < N && s[i] == b'.' && s[i + 1] == b'.' && (i + 2 == N || is_sep(s[i + 2])) { hostile = true; }
+        // a byte of a component that is not "."
+        if !is_sep(s[i]) && !(s[i] == b'.' && left && (i + 1 == N || is_sep(s[i + 1]))) { named = true; }
+        i += 1;
     }
-    if !any { return (false, out, 0); }
-    if preserve { (true, out, len) } else {
-        let mut o2 = [0u8; M];
-        let mut k = last_start;
-        while k < len { o2[k - last_start] = out[k]; k += 1; }
-        (true, o2, len - last_start)
-    }
+    (hostile, named)
 }
 
-fn decide<const N: usize, const M: usize>(preserve: bool) {
+fn decide<const N: usize>() {
     let bytes: [u8; N] = kani::any();
-    let s = match std::str::from_utf8(&bytes) { Ok(s) => s, Err(_) => return };
-    let r = extraction_relative_path(s, preserve);
-    let (accept, want, wlen) = reference::<N, M>(&bytes, preserve);
-    kani::cover!(r.is_some(), "some name is accepted");
-    kani::cover!(r.is_none(), "some name is rejected");
-    match &r {
-        None => assert!(!accept, "a harmless entry name is refused"),
-        Some(p) => {
-            let b = p.as_os_str().as_encoded_bytes();
-            // ---- containment, stated on the bytes of the returned path
-            assert!(!b.is_empty(), "empty relative path: extraction would write to the output directory itself");
-            assert!(b[0] != b'/', "absolute path returned: join() would discard the output directory");
-            let mut i = 0usize;
-            let mut comp_len = 0usize;
-            let mut dots_only = true;
-            while i <= b.len() {
-                if i == b.len() || b[i] == b'/' {
-                    assert!(comp_len > 0 || i == b.len() && false || comp_len > 0, "empty component in the returned path");
-                    assert!(!(dots_only && comp_len <= 2), "'.' or '..' component returned: extraction can leave the output directory");
-                    comp_len = 0;
-                    dots_only = true;
-                } else {
-                    assert!(b[i] != b'\\' && b[i] != b':', "separator or drive/stream marker survives in a component");
-                    if b[i] != b'.' { dots_only = false; }
-                    comp_len += 1;
-                }
-                i += 1;
-            }
-            // ---- function
-            assert!(accept, "a name with a parent-directory / drive component (or without any component) is accepted");
-            assert!(b.len() == wlen, "returned path is not the name's components joined by '/'");
-            let k: usize = kani::any();
-            kani::assume(k < wlen);
-            assert!(b[k] == want[k], "returned path is not the name's components joined by '/'");
-        }
+    // the function under test only looks at bytes; the bytes it tests for are ASCII and never part of a
+    // multi-byte sequence, so UTF-8 validity of the rest is irrelevant to it
+    let s = unsafe { std::str::from_utf8_unchecked(&bytes) };
+    let got = entry_name_is_contained(s);
+    let (hostile, named) = spec::<N>(&bytes);
+    kani::cover!(got, "some name is accepted");
+    kani::cover!(!got && hostile, "some hostile name is rejected");
+    if got {
+        assert!(!hostile, "an entry name with a '..' component or a ':' is accepted: extraction can leave the output directory");
+        assert!(named, "an entry name without any component is accepted: extraction would write to the output directory itself");
+    } else {
+        assert!(hostile || !named, "a harmless entry name is refused");
     }
-    std::mem::forget(r);
 }
 
 macro_rules! c11 {
-    ($name:ident, $n:expr, $m:expr, $preserve:expr, $unw:expr) => {
+    ($name:ident, $n:expr, $unw:expr) => {
         #[kani::proof]
         #[kani::unwind($unw)]
         #[kani::stub(std::fmt::format, vio::fmt_stub)]
-        fn $name() { decide::<$n, $m>($preserve) }
+        fn $name() { decide::<$n>() }
     };
 }
-c11!(c11_path_preserve_n1, 1, 2, true, 6);
-c11!(c11_path_preserve_n2, 2, 4, true, 7);
-c11!(c11_path_preserve_n3, 3, 6, true, 8);
-c11!(c11_path_preserve_n4, 4, 8, true, 9);
-c11!(c11_path_preserve_n5, 5, 10, true, 10);
-c11!(c11_path_preserve_n6, 6, 12, true, 11);
-c11!(c11_path_flat_n1, 1, 2, false, 6);
-c11!(c11_path_flat_n2, 2, 4, false, 7);
-c11!(c11_path_flat_n3, 3, 6, false, 8);
-c11!(c11_path_flat_n4, 4, 8, false, 9);
-c11!(c11_path_flat_n5, 5, 10, false, 10);
-c11!(c11_path_flat_n6, 6, 12, false, 11);
-
-/// std's own path parser agrees: every component of the returned path is Component::Normal
-#[kani::proof]
-#[kani::unwind(8)]
-#[kani::stub(std::fmt::format, vio::fmt_stub)]
-fn c11_path_components_normal_n3() {
-    let bytes: [u8; 3] = kani::any();
-    let s = match std::str::from_utf8(&bytes) { Ok(s) => s, Err(_) => return };
-    let preserve: bool = kani::any();
-    let r = extraction_relative_path(s, preserve);
-    if let Some(p) = &r {
-        let mut n = 0;
-        for c in p.components() {
-            assert!(matches!(c, std::path::Component::Normal(_)), "returned path has a non-normal component (.., root or prefix)");
-            n += 1;
-        }
-        kani::cover!(n == 2);
-        assert!(n >= 1 && (preserve || n == 1), "component count of the returned path");
-        assert!(p.is_relative());
-    }
-    std::mem::forget(r);
-}
+c11!(c11_contained_n1, 1, 5);
+c11!(c11_contained_n2, 2, 6);
+c11!(c11_contained_n3, 3, 7);
+c11!(c11_contained_n4, 4, 8);
+c11!(c11_contained_n5, 5, 9);
+c11!(c11_contained_n6, 6, 10);
+c11!(c11_contained_n7, 7, 11);
+c11!(c11_contained_n8, 8, 12);
+c11!(c11_contained_n10, 10, 14);
+c11!(c11_contained_n12, 12, 16);
+c11!(c11_contained_n16, 16, 20);
+c11!(c11_contained_n20, 20, 24);
+c11!(c11_contained_n24, 24, 28);
 
 #[kani::proof]
 #[kani::unwind(8)]
 #[kani::stub(std::fmt::format, vio::fmt_stub)]
 fn c11_canary() {
     let bytes: [u8; 2] = kani::any();
-    let s = match std::str::from_utf8(&bytes) { Ok(s) => s, Err(_) => return };
-    let r = extraction_relative_path(s, true);
-    assert!(r.is_some(), "canary: must be reported as failing");
-    std::mem::forget(r);
+    let s = unsafe { std::str::from_utf8_unchecked(&bytes) };
+    assert!(entry_name_is_contained(s), "canary: must be reported as failing");
 }
